@@ -8,7 +8,8 @@ import os
 
 from ..cfg import cfg_of
 from ..model import AnalysisError, call_name, calls_in, dotted, norm
-from .. import fde, machines, rules
+from .. import fde, inline, machines, rules
+from .. import conds as cnd
 
 REF = os.path.join(os.path.dirname(os.path.dirname(__file__)), "reference", "e30_control.json")
 
@@ -111,7 +112,7 @@ def _eval_forward(repo, hm, attr, values):
 def _always_stores(repo, f, field, value, after_call=None, depth=0) -> bool:
     """Every normal path of f (after the first call of `after_call`) assigns field = value, directly or through a
     self-method that does so on every path."""
-    cfg = cfg_of(f.node)
+    cfg = cfg_of(inline.expand(repo, f, keep={"_perform_transition"})[0])
     setters = []
     for n in cfg.real_nodes():
         if isinstance(n.ast, ast.Assign) and any(dotted(t) == field for t in n.ast.targets) and isinstance(n.ast.value, ast.Constant) and n.ast.value.value == value:
@@ -313,12 +314,14 @@ def check_probe(ctx):
     ctx.ob("C11.P2", q, ok, "the probe ends with exactly one transition on every path" if ok else f"transitions per path of the probe: {cnt} (0 = stuck in ATTEMPT_ONLINE, 2 = WrongSourceStateError)", key="one-transition", where=f.where)
     succ = [n for n in trans if any(c.endswith("attempt_online_success") for c in n.call_names())]
     fail = [n for n in trans if n not in succ]
-    ok = len(succ) == 1 and all(any(c.endswith("attempt_online_fail_host_offline") or c.endswith("attempt_online_fail_equipment_offline") for c in n.call_names()) for n in fail) and len(fail) >= 3
+    ok = len(succ) == 1 and all(any(c.endswith("attempt_online_fail_host_offline") or c.endswith("attempt_online_fail_equipment_offline") for c in n.call_names()) for n in fail) and len(fail) >= 1
     ctx.ob("C11.P2", q, ok, "one success exit and the failure exits request the fail transition" if ok else f"probe exits: {[t.text() for t in trans]}", key="exits", where=f.where)
     if succ:
-        conds = [(norm(t), v) for t, v in cfg.dominating_conditions(succ[0])]
-        need = [("self._communication_state.current != CommunicationState.COMMUNICATING", False), ("response is None", False), ("response.header.stream != 1 or response.header.function != 2", False)]
-        ok = all(c in conds for c in need)
+        rvars = [t.id for s_ in rules.func_stmts(f.node) if isinstance(s_, ast.Assign) and isinstance(s_.value, ast.Call) and call_name(s_.value) == "self.are_you_there" for t in s_.targets if isinstance(t, ast.Name)]
+        rv = rvars[0] if rvars else "response"
+        need = ["self._communication_state.current == CommunicationState.COMMUNICATING", f"{rv} is not None", f"{rv}.header.stream == 1", f"{rv}.header.function == 2"]
+        ok = all(cnd.holds(cfg, succ[0], c) for c in need)
+        conds = cnd.describe(cfg, succ[0])
         ctx.ob("C11.P2", q, ok, "ONLINE is entered only while communicating and after an S1F2 reply" if ok else f"success guard is {conds}", key="success-guard", where=f.where)
     probe = [n for n in cfg.real_nodes() if any(c == "self.are_you_there" for c in n.call_names())]
     ok = len(probe) == 1 and all(cfg.dominates(probe[0], s) for s in succ)
